@@ -176,7 +176,8 @@ def exercise(ctx, hb, drv, quick, profile):
         def wt(c):
             op, fld, n, total, tw = case_info(c.replace("spec:", "", 1))
             dens = 1.0 - min(0.95, c.count(",0,") / max(1, n))       # sparse vectors are cheap
-            return int(total * max(1, math.log2(max(2, total))) * (8 if fld == "f128" else 1) * dens) + len(c) // 8
+            slow = 6 if (c.startswith("spec:") and op in ("twiddles", "inv_twiddles", "rowmat")) else 1   # per-element powers
+            return int(total * max(1, math.log2(max(2, total))) * (8 if fld == "f128" else 1) * dens * slow) + len(c) // 8
 
         def select(cands, budget, cheap_thr):
             """all cheap cases; per class (op, field, log2 work, blowup / segment width) the cheapest and the heaviest
@@ -198,6 +199,9 @@ def exercise(ctx, hb, drv, quick, profile):
                 v.sort(key=lambda x: x[0])
                 picks = [v.pop(0)] if v[0][0] <= budget // 20 else []
                 heavy_cap = 60_000 if (quick and k[1] == "f128") else budget // 20
+                # quick tier: the spec run (redundant with theorem (c)) gets no forced dense case beyond 60k work units
+                if quick and k[0].startswith("spec:"):
+                    heavy_cap = min(heavy_cap, 60_000)
                 if v and v[-1][0] <= heavy_cap:
                     picks.append(v.pop())
                 for w, l in picks:
@@ -226,10 +230,10 @@ def exercise(ctx, hb, drv, quick, profile):
             if op in SPEC_OPS and r.strip() != "panic" and tw in (None, "std") and n >= 2 and n & (n - 1) == 0 \
                     and total <= (1 << (13 if quick else 15)):
                 cand_s.append("spec:" + l)
-        budget = 4_000_000 if quick else 60_000_000
+        budget = 3_500_000 if quick else 60_000_000
         cheap = 1000 if quick else 30000
         faithful, used_f = select(cand_f, budget, cheap)
-        spec, used_s = select(cand_s, budget // 2, cheap)
+        spec, used_s = select(cand_s, budget // 3, cheap)
         import time as _t
         t0 = _t.time()
         tmo = 900 if quick else 5400
